@@ -72,7 +72,7 @@ ENV = {
                 motorola=True, signed=True, floats=True, mux=["none", "none", "simple"], values=True, neg_values=False,
                 attributes=[], attr_types=[], unit_max=16, nonascii=True,
                 limits=True, ext=True, unique_signals=False, static_with_mux=False, min_len=1, mux_named=False, sym_switches=True),
-    "kcd": dict(same_number_pairs=True, ecus=True, ecu_comments=False, frame_comments=True, signal_comments=True, multiline=True, senders="many", receivers=True,
+    "kcd": dict(multi_bus=True, same_number_pairs=True, ecus=True, ecu_comments=False, frame_comments=True, signal_comments=True, multiline=True, senders="many", receivers=True,
                 motorola=True, signed=True, floats=True, mux=["none", "none", "simple"], values=True, neg_values=False,
                 attributes=[], attr_types=[], unit_max=32, nonascii=True,
                 limits=True, ext=True, unique_signals=False, static_with_mux=True, min_len=1, mux_named=True, mux_plain=True),
@@ -81,7 +81,7 @@ ENV = {
                  attributes=["net", "frame", "signal"], attr_types=["INT", "HEX", "FLOAT", "STRING", "ENUM"], unit_max=32, nonascii=True,
                  limits=True, ext=True, unique_signals=False, static_with_mux=True, min_len=1, mux_named=True, start_values=True,
                  empty_string_attr=True),
-    "arxml": dict(same_number_pairs=True, ecus=True, ecu_comments=True, frame_comments=True, signal_comments=True, multiline=False, senders="many", receivers=True,
+    "arxml": dict(multi_bus=True, same_number_pairs=True, ecus=True, ecu_comments=True, frame_comments=True, signal_comments=True, multiline=False, senders="many", receivers=True,
                   motorola=True, signed=True, floats=True, mux=["none", "none", "simple"], values=True, neg_values=False,
                   attributes=[], attr_types=[], unit_max=32, nonascii=True,
                   limits=True, ext=True, unique_signals=True, static_with_mux=True, min_len=1, mux_named=False, mux_plain=True,
@@ -233,7 +233,10 @@ def gen_desc(rng, fmt, size="small"):
     # ---- frames ----
     used_ids = set()
     nfr = rng.randrange(1, 4 if size == "small" else 7)
-    for _ in range(nfr):
+    # several buses (KCD) / clusters (ARXML) in one file: the frames generated beyond nfr go to the second bus only
+    multi = bool(env.get("multi_bus")) and rng.random() < 0.4
+    n_extra = rng.choice([0, 1, 1, 2]) if multi else 0
+    for _ in range(nfr + n_extra):
         ext = env["ext"] and rng.random() < 0.4
         twin_of = None
         if env.get("same_number_pairs") and desc["frames"] and rng.random() < 0.4:
@@ -388,11 +391,49 @@ def gen_desc(rng, fmt, size="small"):
             members = rng.sample([s["name"] for s in sigs], rng.randrange(1, min(4, len(sigs)) + 1))
             fr["groups"] = [dict(name="Grp_" + fname[:12], repetitions=rng.randrange(1, 4), signals=members)]
         desc["frames"].append(fr)
+    if multi:
+        import copy
+        own = [desc["frames"].pop() for _ in range(n_extra)][::-1]
+        shared = []
+        for fr in desc["frames"]:
+            if rng.random() < 0.6 or (not shared and not own):
+                # the same frame (ARXML: one CAN-FRAME triggered in both clusters; KCD: an equally named message with equally named
+                # signals) on the second bus - with the senders and receivers THAT bus has
+                tw = copy.deepcopy(fr)
+                tw["shared"] = True
+                if env["senders"] == "many":
+                    tw["senders"] = rng.sample(ecu_names, rng.choice([0, 1, 1, 2]))
+                for sg in tw["signals"]:
+                    if not (sg["mux"] and sg["mux"]["role"] == "multiplexer"):
+                        sg["receivers"] = rng.sample(ecu_names, rng.randrange(0, min(3, len(ecu_names)) + 1))
+                shared.append(tw)
+        desc["buses"] = [dict(name="Bus2", frames=shared + own)]
     if env.get("ecus_need_role"):
         # ARXML: an ECU is known to a cluster through the frames it sends or receives (ports on its connector)
-        used = {s for fr in desc["frames"] for s in fr["senders"]} | {r for fr in desc["frames"] for sg in fr["signals"] for r in sg["receivers"]}
+        allf = desc["frames"] + [f for b in desc.get("buses", []) for f in b["frames"]]
+        used = {s for fr in allf for s in fr["senders"]} | {r for fr in allf for sg in fr["signals"] for r in sg["receivers"]}
         desc["ecus"] = [e for e in desc["ecus"] if e["name"] in used]
     return desc
+
+
+def bus_views(desc, fmt):
+    """[(bus name as the file gives it, description restricted to that bus)]; one entry for a single-bus description"""
+    names = {"kcd": ["Bus1", "Bus2"], "arxml": ["CAN", "CAN2"]}.get(fmt, [""])
+    views = [(names[0], desc)]
+    for i, b in enumerate(desc.get("buses", [])):
+        sub = dict(desc)
+        sub["frames"] = b["frames"]
+        views.append((names[i + 1], sub))
+    if fmt == "arxml" and len(views) > 1:
+        # a cluster knows the ECUs that send or receive on it
+        out = []
+        for n, v in views:
+            used = {s for fr in v["frames"] for s in fr["senders"]} | {r for fr in v["frames"] for sg in fr["signals"] for r in sg["receivers"]}
+            v = dict(v)
+            v["ecus"] = [e for e in v["ecus"] if e["name"] in used]
+            out.append((n, v))
+        views = out
+    return views
 
 
 def to_jsonable(x):
